@@ -9,6 +9,11 @@ TLC : base case from Init (every snapshot as the first refresh made by Cluster.c
       of the enumerated host set is checked once, which covers snapshot sequences of any length; plus scripted
       random sequences over 4 (quick) / 5 (thorough) peers whose expected states TLC computes
       (Script_ControlRefresh.tla, invariants on).
+      Concurrent refreshes (spec/ControlRefreshConc.tla): two threads discovering the same new peers; one action =
+      one Metadata.add_or_return_host critical section; invariants AnnouncedAtMostOnce, AnnouncedIffKnown; on the real
+      cluster two logical threads (DetSched, Metadata._hosts_lock as the yield point) run the refresh under every
+      "pause one thread at its k-th lock acquisition, run the other to completion" schedule and seeded random ones:
+      hosts and on_add counts must be a terminal state of the specification.
 Bind: every such pair is executed on the real ControlConnection of a simulated cluster (chains of refreshes, each
       edge starting where the previous one ended; first edges through Cluster.connect): FakeNode's system tables
       are rewritten from the snapshot, then refresh_node_list_and_token_map(); compared after each step: the set
@@ -320,6 +325,55 @@ def run(ctx):
     if rep.by_sig:
         ctx.note("divergences_by_signature", rep.by_sig)
 
+    # ---- concurrent refreshes (spec/ControlRefreshConc.tla): two threads discover the same new peers
+    t0 = time.time()
+    cconsts = {"Threads": {1, 2}, "NewPeers": {1, 2}}
+    ccfg = tlc.write_cfg(os.path.join(ctx.scratch, "conc.cfg"), spec="Spec", constants=cconsts,
+                         invariants=["AnnouncedAtMostOnce", "AnnouncedIffKnown", "AllKnownAtTheEnd"],
+                         properties=["Terminates"], deadlock=False)
+    cres, cstates = rc.dump_states("ControlRefreshConc", ccfg, ctx.scratch, timeout=900)
+    ctx.add_tlc(cres, "concurrent refreshes: all interleavings of the add_or_return_host critical sections")
+    if cres.violation:
+        ctx.violation("TLC: %s violated in ControlRefreshConc.tla" % cres.invariant,
+                      replay={"trace": [s for _, s in cres.trace()]}, signature="spec:conc:%s" % cres.invariant)
+        return
+    def _fn(v):            # a TLA+ function with domain 1..n is parsed as a tuple
+        return dict(enumerate(v, 1)) if isinstance(v, tuple) else dict(v)
+    finals = [st for st in cstates if all(not v for v in _fn(st["todo"]).values())]
+    outcomes = set((tuple(sorted(st["hosts"])), tuple(sorted(_fn(st["announced"]).items()))) for st in finals)
+    if not finals:
+        raise tlc.MachineryError("ControlRefreshConc: no terminal state in the dump")
+    n_y = rc.concurrent_refresh([1, 2], ("count",))["yields"]
+    if not n_y:
+        raise tlc.MachineryError("a refresh never reaches the hosts lock: no yield point to interleave at")
+    schedules = [("pause", first, k) for first in ("T1", "T2") for k in range(1, n_y + 1)]
+    schedules += [("random", i) for i in range(20 if ctx.quick else 300)]
+    conc_ok = 0
+    for sc in schedules:
+        rng = __import__("random").Random(ctx.seed * 1000 + sc[1]) if sc[0] == "random" else None
+        pj = rc.concurrent_refresh([1, 2], sc[:1] if sc[0] == "random" else sc, rng)
+        got = (tuple(sorted(pj["known"])), tuple(sorted((p, pj["added"].get(p, 0)) for p in (1, 2))))
+        ctx.evaluations += 1
+        ctx.nontrivial(("concurrent", sc))
+        if pj["error"] is None and got in outcomes:
+            conc_ok += 1
+            continue
+        sig = "refresh:concurrent:%s" % ("raised" if pj["error"] else
+                                         "host-announced-%s" % ("twice" if any(n > 1 for _, n in got[1]) else "wrongly"))
+        rep.by_sig[sig] = rep.by_sig.get(sig, 0) + 1
+        if rep.by_sig[sig] <= MAX_REPORT_PER_SIGNATURE:
+            ctx.violation("two concurrent node-list refreshes discovering peers 1 and 2, schedule %s: hosts %s, on_add counts %s%s; "
+                          "ControlRefreshConc.tla ends with %s" % (sc, got[0], dict(got[1]),
+                                                                     "" if not pj["error"] else " (%s)" % pj["error"], sorted(outcomes)),
+                          replay={"concurrent": True, "schedule": list(sc), "seed": ctx.seed}, signature=sig)
+    ctx.traces_validated += conc_ok
+    ctx.note("concurrent_refresh_schedules", len(schedules))
+    ctx.note("concurrent_refresh_yield_points_per_refresh", n_y)
+    ctx.sample({"concurrent_refreshes": {"new_peers": [1, 2], "schedules": [list(x) for x in schedules[:4]],
+                                         "expected_end": [list(map(list, o)) for o in sorted(outcomes)]}})
+    timing["concurrent"] = round(time.time() - t0, 1)
+    ctx.note("timing_s", timing)
+
     # ---- binding self-test: corrupted expectations must be noticed by the comparison
     probe = proj = None
     for cand in [s for s in sts if len(s["known"]) >= 3 and s["l"] == 2][:25]:
@@ -370,6 +424,15 @@ def _fix(obj):
 def replay(ctx, obj):
     from harness.replay import control as rc
     obj = _fix(obj)
+    if obj.get("concurrent"):
+        sc = tuple(obj["schedule"])
+        rng = __import__("random").Random(obj.get("seed", 0) * 1000 + sc[1]) if sc[0] == "random" else None
+        pj = rc.concurrent_refresh([1, 2], sc[:1] if sc[0] == "random" else sc, rng)
+        print("schedule %s -> hosts %s, on_add counts %s, error %s" % (sc, sorted(pj["known"]), pj["added"], pj["error"]))
+        if pj["error"] or any(pj["added"].get(p, 0) != 1 for p in (1, 2)) or sorted(pj["known"]) != [0, 1, 2]:
+            ctx.violation("replayed: a newly seen host is not announced exactly once", replay=obj,
+                          signature="refresh:concurrent:host-announced-%s" % ("twice" if any(n > 1 for n in pj["added"].values()) else "wrongly"))
+        return
     h = rc.RefreshHarness(obj["peers"], v2=obj.get("peers_v2", False), same_addr=obj.get("same_addr", ()))
     proj = None
     for act in obj["history"]:
